@@ -67,7 +67,7 @@ def evalShellCall (c : CallView) : M Rank :=
   | a :: _ => pure (if a.isStrConst then .low else .high)
   | [] => throw .indexError
 
-def b602 (cfg : ShellCfg) (e : Env) : M (Option Raw) := do
+def b602 (cfg : ShellCfg) (e : Env) : M (Option PRaw) := do
   let some c := e.call? | throw .attributeError
   if cfg.truthy then
     if !cfg.hasSubprocess then throw .keyError
@@ -75,28 +75,28 @@ def b602 (cfg : ShellCfg) (e : Env) : M (Option Raw) := do
       if ← hasShell c then
         if (← c.callArgs).length > 0 then
           let sev ← evalShellCall c
-          return some { sev := sev, conf := .high, lineno := c.kwLineno "shell" }
+          return some { sev := sev, conf := .high, loc := .kw ["shell"] }
   return none
 
-def b603 (cfg : ShellCfg) (e : Env) : M (Option Raw) := do
+def b603 (cfg : ShellCfg) (e : Env) : M (Option PRaw) := do
   let some c := e.call? | throw .attributeError
   if cfg.truthy then
     if !cfg.hasSubprocess then throw .keyError
     if cfg.subprocess.contains e.qual then
       if !(← hasShell c) then
-        return some { sev := .low, conf := .high, lineno := c.kwLineno "shell" }
+        return some { sev := .low, conf := .high, loc := .kw ["shell"] }
   return none
 
-def b604 (cfg : ShellCfg) (e : Env) : M (Option Raw) := do
+def b604 (cfg : ShellCfg) (e : Env) : M (Option PRaw) := do
   let some c := e.call? | throw .attributeError
   if cfg.truthy then
     if !cfg.hasSubprocess then throw .keyError
     if !cfg.subprocess.contains e.qual then
       if ← hasShell c then
-        return some { sev := .medium, conf := .low, lineno := c.kwLineno "shell" }
+        return some { sev := .medium, conf := .low, loc := .kw ["shell"] }
   return none
 
-def b605 (cfg : ShellCfg) (e : Env) : M (Option Raw) := do
+def b605 (cfg : ShellCfg) (e : Env) : M (Option PRaw) := do
   let some c := e.call? | throw .attributeError
   if cfg.truthy then
     if !cfg.hasShell then throw .keyError
@@ -106,14 +106,14 @@ def b605 (cfg : ShellCfg) (e : Env) : M (Option Raw) := do
         return some { sev := sev, conf := .high }
   return none
 
-def b606 (cfg : ShellCfg) (e : Env) : M (Option Raw) := do
+def b606 (cfg : ShellCfg) (e : Env) : M (Option PRaw) := do
   if cfg.truthy then
     if !cfg.hasNoShell then throw .keyError
     if cfg.noShell.contains e.qual then
       return some { sev := .low, conf := .medium }
   return none
 
-def b607 (cfg : ShellCfg) (e : Env) : M (Option Raw) := do
+def b607 (cfg : ShellCfg) (e : Env) : M (Option PRaw) := do
   let some c := e.call? | throw .attributeError
   if cfg.truthy then
     if (← c.callArgs).length > 0 then
@@ -173,7 +173,7 @@ where
 
 def vulnerableFuncs : List Str := ["chown".toList, "chmod".toList, "tar".toList, "rsync".toList]
 
-def b609 (cfg : ShellCfg) (e : Env) : M (Option Raw) := do
+def b609 (cfg : ShellCfg) (e : Env) : M (Option PRaw) := do
   let some c := e.call? | throw .attributeError
   if !(cfg.hasShell && cfg.hasSubprocess) then return none
   let inShell := cfg.shell.contains e.qual
@@ -191,7 +191,7 @@ def b609 (cfg : ShellCfg) (e : Env) : M (Option Raw) := do
         | _ => []
       if !s.isEmpty then
         if vulnerableFuncs.any (fun f => Str.isInfix f s) && s.contains '*' then
-          return some { sev := .high, conf := .medium, lineno := c.kwLineno "shell" }
+          return some { sev := .high, conf := .medium, loc := .kw ["shell"] }
   return none
 
 def shellChecks (cfg : ShellCfg) : List Check :=
